@@ -9,6 +9,9 @@ FRAMES_PER_PACKET and PACKET_BACKLOG_SIZE are the regenerated `Gen.C16` constant
         pkt = `<12-byte header hex>:<payload length>:<payload digest>`
         (the run is `packetize` with `wireV1`; an encrypted v2 datagram is compared after
         the harness has opened it)
+  streamc <frameSize> <latency> <startTs> <ssrc> <s0> <comp csv|-> <chunk hex;chunk hex;…|->
+      the same for a source that delivered these non-empty reads (each at most one packet):
+      `packetize` on `padChunks` (the padding `_send_packet` adds to a short read made explicit)
   ctrl <datagram hex>            control datagram against the final backlog of the last run
       → `err` (the decode raised) | `<resent;resent;…|->`, resent = `<first 4 bytes hex>:<length>:<digest>`
   ctrlat <k> <datagram hex>      same against the backlog after the first k packets of the last run
@@ -135,6 +138,21 @@ def handle (s : DState) (ws : List String) : DState × String :=
         let st := r.final
         ({ sent := r.sent, backlog := st.backlog, ctx := x1.after st },
          s!"{x1.latency} {r.status.toStr} {st.rtpseq} {st.headTs} {st.paddingSent} " ++
+         s!"{joinWith "," (st.backlog.keys.map toString)} {joinWith ";" (r.sent.map showSent)}")
+    | _, _, _, _, _, _, _ => (s, "bad-op")
+  | ["streamc", fs, lat, start, ssrc, s0, comp, chunks] =>
+    match fs.toNat?, lat.toNat?, start.toInt?, ssrc.toNat?, s0.toNat?, csvNats? comp,
+          (if chunks == "-" then some [] else (chunks.splitOn ";").mapM ofHex?) with
+    | some fs, some lat, some start, some ssrc, some s0, some comp, some chunks =>
+      let ps := Gen.C16.framesPerPacket * fs
+      if fs = 0 ∨ s0 ≥ seqMod ∨ chunks.any (fun ch => ch.isEmpty ∨ ch.length > ps) then (s, "bad-op")
+      else
+        let c : Cfg := { fpp := Gen.C16.framesPerPacket, frameSize := fs, latency := lat,
+                         startTs := start, ssrc := ssrc, wire := wireV1 }
+        let r := packetize c Gen.C16.packetBacklogSize (padChunks ps chunks) s0 comp
+        let st := r.final
+        ({ s with sent := r.sent, backlog := st.backlog },
+         s!"{r.status.toStr} {st.rtpseq} {st.headTs} {st.paddingSent} " ++
          s!"{joinWith "," (st.backlog.keys.map toString)} {joinWith ";" (r.sent.map showSent)}")
     | _, _, _, _, _, _, _ => (s, "bad-op")
   | ["ctrl", d] =>
